@@ -42,7 +42,7 @@ func (c07) Budget(tier string) int {
 	if tier == "thorough" {
 		return 120000
 	}
-	return 640
+	return 2400
 }
 
 const c07Cap = 6000 // reference executions are cut here (non-terminating programs)
